@@ -75,7 +75,9 @@ def model(tier, rep):
     with open(path, "w") as f:
         for g in sorted(gen, key=lambda g: (g["s"], g["e"], g["m"])):
             f.write("%d %d %d\n" % (g["s"], g["e"], g["m"]))
-    rep.cov["exhaustive"] = True
+    rep.cov["exhaustive"] = False
+    rep.cov["explanation"] = ("the two 9-bit minifloat formats are enumerated completely (every value, every pair) by TLC; binary32/64 "
+                              "are covered by the exported boundary table, boundary grids and seeded random values, not exhaustively")
     rep.sample({"module": "Float[f32]", "exported_input": gen[len(gen) // 2]})
     return path, len(gen)
 
@@ -170,11 +172,17 @@ def measure(paths, devlines):
     """Largest observed ulp distance per approximating function among the events the trace spec ACCEPTED
     (evidence note; the verdicts themselves come from TLC)."""
     mx = {}
+    cnt = {}
     for p in paths:
         bad = devlines.get(p, set())
         with open(p) as f:
             for i, line in enumerate(f, 1):
-                if i in bad or '"r":[' not in line:
+                if i in bad:
+                    continue
+                j = line.find('"md":"')
+                kk = "%s/%s" % (line[7:line.index('"', 7)], line[j + 6:j + 8])
+                cnt[kk] = cnt.get(kk, 0) + 1
+                if '"r":[' not in line:
                     continue
                 ev = json.loads(line)
                 if not isinstance(ev.get("c"), list) or len(ev["c"]) > 4:
@@ -185,7 +193,7 @@ def measure(paths, devlines):
                         if a is not None and b is not None and a != b:
                             k = "%s/%s/%s" % (ev["op"], ev["p"], ev["md"])
                             mx[k] = max(mx.get(k, 0), abs(a - b))
-    return mx
+    return mx, cnt
 
 
 def pipeline(tier, rep, calibrate=True):
@@ -232,14 +240,16 @@ def pipeline(tier, rep, calibrate=True):
         ev = d.get("ev", {})
         k = "%s/%s/%s/%s" % (ev.get("op"), ev.get("p"), ev.get("md"), d["kind"])
         byfn[k] = byfn.get(k, 0) + 1
-    m["max_ulp_distance_accepted"] = dict(sorted(measure(merged, devlines).items()))
+    mx, cnt = measure(merged, devlines)
+    m["max_ulp_distance_accepted"] = dict(sorted(mx.items()))
+    m["accepted_events_by_function"] = dict(sorted(cnt.items()))
     m["deviations_by_function"] = dict(sorted(byfn.items()))
     return r
 
 
-def replay(path, pid):
-    """Re-execute the input of a recorded deviation on the current tree and judge it again."""
-    rec = json.load(open(path))
+def replay(rec):
+    """check.py --replay: re-execute the input of a recorded deviation on the current tree and judge the event again.
+    Returns the deviations that are still reported."""
     ev = rec["event"]
     flags, _ = probe()
     isf = ev["p"] == "f"
@@ -273,7 +283,4 @@ def replay(path, pid):
     one = os.path.join(d, "float_replay_one.ndjson")
     open(one, "w").writelines(sel[:1])
     r = vlib.tlc_tv("FloatTrace.tla", "FloatTrace.cfg", one, "float_tv_replay", extra_env=JENV)
-    if r["deviations"]:
-        print("VIOLATION property=%s replay=%s" % (pid, path))
-        return 1
-    return 0
+    return r["deviations"]
